@@ -72,3 +72,39 @@ func vh_rcv_after_fin() {
 		}
 	}
 }
+
+// O7: the protocol goroutine's main loop keeps waiting for events while data or a FIN is
+// outstanding or a direction is still open; it terminates (state closed) only when both
+// directions are closed and everything was acknowledged - or on an error path that resets.
+// Sleeper.Fetch is the wait: scripted wake-ups run the real handlers, an unscripted wait
+// ends the explored step.
+func vh_mainloop() {
+	vclockFreeze()
+	c := vhEP(1<<20, 1<<20)
+	s := c.vhSender()
+	e := c.e
+	e.rcv.closed = vnBool("rcvclosed")
+	s.closed = vnBool("sndclosed")
+	if s.closed {
+		vassume(e.sndClosed) // the sender is marked closed only after Shutdown queued the FIN
+	}
+	e.workMu.Lock()
+	switch vnChoice("wake", 4) {
+	case 1:
+		vfetchPush(0) // sndWaker: handleWrite
+	case 2:
+		vfetchPush(1) // sndCloseWaker: handleClose
+	case 3:
+		vfetchPush(4) // resendWaker: retransmit timer
+	}
+	err := e.protocolMainLoop(false)
+	// reached only if the loop terminated instead of waiting
+	vassert(err == nil, "the main loop ends without returning an error")
+	if e.state == stateError {
+		vreach("reset")
+		return
+	}
+	vassert(e.state == stateClosed, "a terminated connection is closed")
+	vassert(e.rcv.closed && s.closed && s.sndUna == s.sndNxtList, "the protocol goroutine never stops while a direction is open or written data / the FIN is still unacknowledged")
+	vreach("terminated")
+}
